@@ -53,20 +53,28 @@ def build(ns):
         wt = q.get()
         try:
             patch = os.path.join(NEUTRAL, n, "patch.diff")
-            sh("git checkout -- . && git clean -fdq src", wt)
+            sh("git reset -q --hard HEAD && git clean -fdq src", wt)
             rc, o = sh("git apply --whitespace=nowarn %s" % patch, wt)
             if rc != 0:
                 rc, o = sh("git apply --3way --whitespace=nowarn %s" % patch, wt)
-            if rc != 0:
+            if rc != 0 or sh("grep -rlq '^<<<<<<<' src", wt)[0] == 0:
+                try:
+                    os.unlink(os.path.join(CACHE, n + ".json"))
+                except OSError:
+                    pass
                 return n, "does not apply: " + o[-200:]
             try:
                 d, info = pdbmod.build_pdb(repo=wt)
             except pdbmod.PdbError as e:
+                try:
+                    os.unlink(os.path.join(CACHE, n + ".json"))
+                except OSError:
+                    pass
                 return n, "pdb: " + str(e)[-300:]
             json.dump(d, open(os.path.join(CACHE, n + ".json"), "w"))
             return n, "ok"
         finally:
-            sh("git checkout -- . && git clean -fdq src", wt)
+            sh("git reset -q --hard HEAD && git clean -fdq src", wt)
             q.put(wt)
     with ThreadPoolExecutor(6) as ex:
         for n, r in ex.map(one, ns):
